@@ -386,3 +386,87 @@ def propsWire (legacy : Bool) : List (PropSpec × PyVal) → Option (Nat × Byte
 
 end Spec
 end Pamqp
+
+namespace Pamqp
+namespace Spec
+
+/-! ## received method arguments and content headers by the grammar (C05 at frame level) -/
+
+/-- one wire item of a method's argument list: a maximal run of 1..8 bits sharing an octet (whose
+unused high bits may hold anything), or one non-bit argument -/
+inductive AV where
+  | bits (bs : List Bool) (pad : Nat)
+  | octet (n : Nat)
+  | short (n : Nat)
+  | long (n : Nat)
+  | longlong (i : Int)
+  | sstr (bs : Bytes)
+  | lstr (bs : Bytes)
+  | table (l : List (Bytes × FV))
+  | ts (n : Nat)
+  deriving Repr, Inhabited
+
+def AV.wire : AV → Bytes
+  | .bits bs pad => [UInt8.ofNat (packBits bs + 2 ^ bs.length * pad)]
+  | .octet n => beN 1 n
+  | .short n => beN 2 n
+  | .long n => beN 4 n
+  | .longlong i => beN 8 (i % (256 ^ 8 : Nat)).toNat
+  | .sstr bs => beN 1 bs.length ++ bs
+  | .lstr bs => beN 4 bs.length ++ bs
+  | .table l => beN 4 (wireE l).length ++ wireE l
+  | .ts n => beN 8 n
+
+def AV.types : AV → List WireTy
+  | .bits bs _ => bs.map (fun _ => .bit)
+  | .octet _ => [.octet]
+  | .short _ => [.short]
+  | .long _ => [.long]
+  | .longlong _ => [.longlong]
+  | .sstr _ => [.shortstr]
+  | .lstr _ => [.longstr]
+  | .table _ => [.table]
+  | .ts _ => [.timestamp]
+
+def AV.isBits : AV → Bool
+  | .bits _ _ => true
+  | _ => false
+
+def AV.WF : AV → Prop
+  | .bits bs pad => 1 ≤ bs.length ∧ bs.length ≤ 6 ∧ packBits bs + 2 ^ bs.length * pad < 256
+  | .octet n => n < 256
+  | .short n => n < 65536
+  | .long n => n < 2 ^ 32
+  | .longlong i => -9223372036854775808 ≤ i ∧ i ≤ 9223372036854775807
+  | .sstr bs => bs.length < 256 ∧ (utf8Decode bs).isSome
+  | .lstr bs => bs.length < 2 ^ 32
+  | .table l => (FV.tbl l).WF
+  | .ts n => n < 2 ^ 64
+
+/-- the attribute values a decoder must assign (one per argument) -/
+def AV.values : AV → Option (List PyVal)
+  | .bits bs _ => some (bs.map .bool)
+  | .octet n => some [.int n]
+  | .short n => some [.int n]
+  | .long n => some [.int n]
+  | .longlong i => some [.int i]
+  | .sstr bs => (utf8Decode bs).map (fun s => [.str s])
+  | .lstr bs => match utf8Decode bs with
+    | some s => some [.str s]
+    | none => some [.bytes bs]
+  | .table l => ((FV.tbl l).value).map (fun v => [v])
+  | .ts n => (tsValue n).map (fun v => [v])
+
+def avsValues : List AV → Option (List PyVal)
+  | [] => some []
+  | a :: as => match a.values, avsValues as with
+    | some x, some y => some (x ++ y)
+    | _, _ => none
+
+/-- bit runs are maximal: no two adjacent runs (they would share an octet) -/
+def runsMaximal : List AV → Bool
+  | a :: b :: rest => !(a.isBits && b.isBits) && runsMaximal (b :: rest)
+  | _ => true
+
+end Spec
+end Pamqp
